@@ -63,7 +63,8 @@ ASSUMPTIONS = [
 ]
 FLOORS = {
     'quick': {
-        'handshakes': 800, 'pairs_same_both_returned': 30, 'pairs_equivalent_both_returned': 8,
+        'handshakes': 800, 'silent_peer_cases': 2, 'pairs_on_listener_that_rejected_a_peer': 60,
+        'pairs_same_both_returned': 30, 'pairs_equivalent_both_returned': 8,
         'pairs_diff_both_autherror': 250, 'onebit_short_pairs': 120, 'prefix_pairs': 20,
         'long_key_pairs': 20, 'wire_verified_handshakes': 300, 'usable_roundtrips': 150,
         'hostile_client_cases': 200, 'hostile_listener_cases': 200,
@@ -124,6 +125,9 @@ def plan(tier, seed):
                 i += 1
     specs.append({'mode': 'types', 'seed': seed * 1000 + i})
     i += 1
+    for fam in (('AF_UNIX',) if q else ('AF_UNIX', 'AF_INET')):
+        specs.insert(0, {'mode': 'silent', 'family': fam, 'seed': seed * 1000 + i})
+        i += 1
     for part in range(2 if q else 6):
         specs.append({'mode': 'authstring', 'seed': seed * 1000 + i, 'part': part,
                       'nkeys': 10 if q else 20})
@@ -607,6 +611,16 @@ def run_pairs(env, rng):
                 lkey = kL
             proxy.upstream = listener.address
             ok = one_pair(env, proxy, listener, Client, idx, rel, kL, kC)
+            if ok and not same_key(kL, kC) and rng.random() < 0.5:
+                # the same listener after it has turned a peer away: a client
+                # with the right key must still get its connection
+                rec.count('pairs_on_listener_that_rejected_a_peer')
+                env.after_reject = True
+                try:
+                    ok = one_pair(env, proxy, listener, Client, 100000 + idx,
+                                  'equal_after_reject', kL, bytes(kL))
+                finally:
+                    env.after_reject = False
             if not ok:
                 close_quietly(listener)
                 listener = None
@@ -694,6 +708,10 @@ def one_pair(env, proxy, listener, Client, idx, rel, kL, kC):
         if not w.done.wait(10):
             w.kill()
             w.done.wait(5)
+        if w.err and getattr(env, 'after_reject', False):
+            rec.violation('listener_unusable_after_rejecting_a_peer', attrs, error=str(w.err),
+                          **detail)
+            return False
         if w.err:
             raise RuntimeError('proxy could not reach the listener: %s' % w.err)
         l2c, c2l = parse_frames(w.l2c), parse_frames(w.c2l)
@@ -1535,6 +1553,71 @@ def run_authstring(env, rng):
 
 
 # --------------------------------------------------------------------------
+# mode "silent": a peer that says nothing at the digest step
+# --------------------------------------------------------------------------
+
+def run_silent(env, rng):
+    """A peer that never answers the challenge must never be welcomed, however
+    long it waits (longer than any time-out the handshake code may use):
+    (a) a raw client reads the real Listener's challenge and then stays silent;
+    (b) a raw listener without the key challenges the real Client, welcomes its
+    digest, and then stays silent when the client challenges it in turn."""
+    from billiard import connection as bc
+    from billiard.connection import Client
+    rec = env.rec
+    quiet = float(getattr(bc, 'CONNECTION_TIMEOUT', 20.0)) + 4.0
+    K = rng.randbytes(16)
+    attrs = {'mode': 'silent', 'family': env.family}
+    # (a)
+    listener = new_listener(env, K)
+    a = Call(listener.accept)
+    a.start()
+    cs = env.raw_socket()
+    cs.settimeout(T_IO)
+    cs.connect(listener.address)
+    fa = FrameReader(cs)
+    first_a = fa.read(T_FIRST)[1]
+    # (b)
+    ls, ls_addr = env.raw_listener()
+    c = Call(lambda: Client(ls_addr, family=env.family, authkey=K))
+    c.start()
+    ps = accept_raw(ls, c.done)
+    got_b = []
+    if ps is not None:
+        ps.settimeout(T_IO)
+        ps.sendall(frame(CH + rng.randbytes(20)))
+        fb = FrameReader(ps)
+        got_b.append(fb.read(T_FIRST)[1])        # the client's digest
+        ps.sendall(frame(WELCOME))
+        got_b.append(fb.read(T_FIRST)[1])        # the client's own challenge
+    t0 = time.monotonic()
+    late_a = late_b = None
+    while time.monotonic() - t0 < quiet:
+        time.sleep(0.5)
+        if a.done.is_set() and c.done.is_set():
+            break
+    # anything the real sides sent to the silent peers meanwhile?
+    late_a = fa.read(1.0)[1]
+    if ps is not None:
+        late_b = fb.read(1.0)[1]
+    rec.case()
+    rec.count('silent_peer_cases', 2)
+    rec.count('handshakes', 2)
+    for side, call, late, first in (('listener', a, late_a, first_a),
+                                    ('client', c, late_b, got_b[1:] and got_b[1])):
+        at = dict(attrs, real_side=side)
+        if not (first or b'').startswith(CH):
+            rec.anomaly('silent_case_without_challenge', side=side, first=repr(first)[:60])
+            continue
+        rec.count('silent_peer_waited_s', int(time.monotonic() - t0))
+        if late == WELCOME:
+            rec.violation('silent_peer_was_welcomed', at, waited=time.monotonic() - t0)
+        if call.conn is not None:
+            rec.violation('connection_handed_out_to_silent_peer', at,
+                          waited=time.monotonic() - t0)
+        rec.sig(['silent', env.family, side, call.outcome(), repr(late)[:20]])
+    close_quietly(cs, ps, ls, a.conn, c.conn, listener)
+
 
 def run_spec(spec, rec):
     env = Env(rec, spec)
@@ -1543,6 +1626,8 @@ def run_spec(spec, rec):
         run_pairs(env, rng)
     elif spec['mode'] == 'hostile':
         run_hostile(env, rng)
+    elif spec['mode'] == 'silent':
+        run_silent(env, rng)
     elif spec['mode'] == 'types':
         run_types(env, rng)
     elif spec['mode'] == 'authstring':
